@@ -191,7 +191,7 @@ var peopleDottedScalars = []symSpec{{"boss.sa", "s"}, {"boss.ia", "i"}, {"boss.f
 var peopleMapScalars = []symSpec{{"tags.k", "any"}, {"tags.n", "any"}, {"tags.s", "any"}, {"tags.missing", "any"}, {"tags.sub.k", "any"}, {"tags.sub.n", "any"}}
 var peopleDottedMaps = []symSpec{{"boss.tags.k", "any"}}
 var peopleSetsDirect = []symSpec{{"roles", "s"}, {"nums", "s"}, {"places", "s"}, {"peers", "s"}}
-var peopleSetsDotted = []symSpec{{"places.name", "s"}, {"places.n", "i"}, {"places.businesses", "s"}, {"boss.roles", "s"}, {"boss.places", "s"}, {"boss.places.name", "s"}, {"places.people", "s"}, {"places.people.sa", "s"}, {"places.people.ia", "i"}, {"peers.sa", "s"}, {"peers.roles", "s"}}
+var peopleSetsDotted = []symSpec{{"places.name", "s"}, {"places.n", "i"}, {"places.businesses", "s"}, {"boss.roles", "s"}, {"boss.places", "s"}, {"boss.places.name", "s"}, {"places.people", "s"}, {"places.people.sa", "s"}, {"places.people.ia", "i"}, {"peers.sa", "s"}, {"peers.roles", "s"}, {"peers.boss.sa", "s"}, {"peers.home.name", "s"}, {"places.people.boss.ia", "i"}, {"boss.peers.boss.sa", "s"}, {"peers.peers.sa", "s"}, {"peers.boss.roles", "s"}, {"peers.boss.boss.sa", "s"}, {"peers.boss.tags.k", "any"}, {"places.people.peers.home.name", "s"}}
 var placesScalars = []symSpec{{"id", "s"}, {"name", "s"}, {"n", "i"}}
 var placesSetsDirect = []symSpec{{"businesses", "s"}, {"people", "s"}}
 var placesSetsDotted = []symSpec{{"people.sa", "s"}, {"people.roles", "s"}, {"people.ia", "i"}}
